@@ -23,6 +23,8 @@ BIG = 1.0e6                    # target side exchange() timeout (the spec assume
 K_ACK = "OneFaultOk:corrupted-ACK-while-initiator-chains:NAK-answered-by-ACK-rejected"
 K_ATN = "OneFaultOk:DID-in-use:ATN-sent-without-DID-is-ignored-by-target"
 K_MIU = "FrameFits:target-frame-with-DID-exceeds-LRi-by-1"
+K_TPNI = "FirstPni:re-activated-target-keeps-PNI-of-previous-session:first-request-taken-for-a-retransmission"
+K_IPNI = "FirstPni:re-activated-initiator-starts-with-the-PNI-of-the-previous-session"
 K_DID0 = "OneFaultOk:did=0:initiator-sends-DID-byte-0-after-announcing-no-DID:target-ignores-every-PDU"
 K_LEN = "OnlyCommErr:Target.exchange-raised-Other:struct.error"        # LEN byte 256 (DID, LRi=254)
 
@@ -160,15 +162,18 @@ class Conversation(object):
             return CORRUPT if rnd.random() < pc else LOSE
         return fn
 
-    def _initiator(self):
+    def _sessions(self):
+        """[(exchanges, ending, fates)]: an optional first session (plan["s1"] = dict(k=, end="RLS"|"DSL"|"loss")) of k
+        fault-free single-frame exchanges on the same two objects, then the conversation proper"""
+        out = []
+        s1 = self.plan.get("s1")
+        if s1 is not None:
+            out.append(([(3, 5, 2)] * s1["k"], s1["end"], []))
+        out.append((self.plan["ex"], self.plan.get("release"), self.fates))
+        return out
+
+    def _const(self):
         cfg, air, ini = self.cfg, self.air, self.ini
-        opts = dict(brs=cfg.get("brs", 0), acm=False, lri=cfg.get("lri", 3))
-        if cfg.get("did") is not None:
-            opts["did"] = cfg["did"]
-        if cfg.get("nad") is not None:
-            opts["nad"] = cfg["nad"]
-        if ini.activate(**opts) is None:
-            raise RuntimeError("initiator activation failed")
         # what the receivers announced, from the frames on the air
         atr_req = [f for f in air.log if f.src == "I" and b"\xD4\x00" in f.data[:4]][-1].data
         atr_res = [f for f in air.log if f.src == "T" and b"\xD5\x01" in f.data[:4]][-1].data
@@ -176,61 +181,94 @@ class Conversation(object):
         lr_i = LR[(atr_req[k + 15] >> 4) & 3]
         k = atr_res.index(b"\xD5\x01")
         lr_t = LR[(atr_res[k + 16] >> 4) & 3]
-        self.tick = ini.rwt / R_TICKS
-        self.t0 = air.clock.now
         did = cfg.get("did")
         # did: the initiator was given a DID (it then sends a DID byte, also for 0); tdid: the ATR_REQ carries a
         # DID > 0, i.e. the target holds one; did0: a DID of 0 ("no DID" in the ATR_REQ) was configured
-        self.const = dict(lrI=lr_i, lrT=lr_t, did=did is not None, tdid=bool(did), did0=did == 0,
-                          nad=cfg.get("nad") is not None,
-                          miuI=ini.miu, miuT=None, R=R_TICKS, brty=ini.target.brty)
-        if isinstance(self.fates, (list, tuple)):
-            air.script(self.fates)
-        else:
-            air.fates = self._fate_fn()
-        self.recording = True
-        for k, (n_i, d, _n_t) in enumerate(self.plan["ex"]):
-            pid = k + 1
-            self.log("ICall", id=pid, n=n_i, D=d)
-            try:
-                got = ini.exchange(payload("I", pid, n_i), d * self.tick)
-            except BaseException as e:            # noqa: every failure is an event, judged by the spec
-                self.log("IErr", kind=err_kind(e))
-                return "err"
-            got = bytes(got)
-            self.log("IRet", n=len(got), sig=sig(got))
-        rel = self.plan.get("release")
-        if rel:
-            self.log("Release", kind=rel)
-            ini.deactivate(release=(rel == "RLS"))
+        return dict(lrI=lr_i, lrT=lr_t, did=did is not None, tdid=bool(did), did0=did == 0,
+                    nad=cfg.get("nad") is not None, miuI=ini.miu, miuT=None, R=R_TICKS, brty=ini.target.brty)
+
+    def _initiator(self):
+        try:
+            return self._initiator_sessions()
+        finally:
+            self.i_over = True
+
+    def _initiator_sessions(self):
+        cfg, air, ini = self.cfg, self.air, self.ini
+        opts = dict(brs=cfg.get("brs", 0), acm=False, lri=cfg.get("lri", 3))
+        if cfg.get("did") is not None:
+            opts["did"] = cfg["did"]
+        if cfg.get("nad") is not None:
+            opts["nad"] = cfg["nad"]
+        pid = 0
+        for s, (exchanges, ending, fates) in enumerate(self._sessions()):
+            if s > 0:
+                self._finalize("Reactivate")      # the state the previous session left, before activate() touches it
+                self.recording = False            # discovery and ATR frames are not part of the conversation
+            if ini.activate(**opts) is None:
+                raise RuntimeError("initiator activation failed (session %d)" % (s + 1))
+            const = self._const()
+            self.tick = ini.rwt / R_TICKS
+            self.t0 = air.clock.now
+            if s == 0:
+                self.const = const
+            else:
+                self.consts.append(const)
+                self.log("Activate", const=const, ipni=ini.pni, session=s)
+            if isinstance(fates, (list, tuple)):
+                air.script(fates)
+            else:
+                air.fates = self._fate_fn()
+            self.recording = True
+            for (n_i, d, _n_t) in exchanges:
+                pid += 1
+                self.log("ICall", id=pid, n=n_i, D=d)
+                try:
+                    got = ini.exchange(payload("I", pid, n_i), d * self.tick)
+                except BaseException as e:            # noqa: every failure is an event, judged by the spec
+                    self.log("IErr", kind=err_kind(e))
+                    return "err"
+                got = bytes(got)
+                self.log("IRet", n=len(got), sig=sig(got))
+            if ending in ("RLS", "DSL"):
+                self.log("Release", kind=ending)
+                ini.deactivate(release=(ending == "RLS"))
+            # ending "loss": the initiator just goes away (the next activation switches the field off)
         return "ok"
 
     def _target(self):
         tgt = self.tgt
-        self.tmiu = LR[self.cfg.get("lri", 3)] - 3 - bool(self.cfg.get("did"))
-        if tgt.activate(timeout=10.0, lrt=self.cfg.get("lrt", 3), rwt=self.cfg.get("wt", 8)) is None:
-            if not self.recording:
-                raise RuntimeError("target activation failed")
-            # the initiator gave up before any DEP_REQ got through: the device never reported an activation
-            self.log("TEnd", kind="NotActivated")
-            return "none"
-        self.tmiu = tgt.miu
-        k, data = 0, None
-        while True:
-            try:
-                got = tgt.exchange(data, BIG)
-            except BaseException as e:            # noqa
-                self.log("TEnd", kind=err_kind(e))
-                return "err"
-            if got is None:
-                self.log("TEnd", kind="none")
-                return "none"
-            got = bytes(got)
-            self.log("TRet", n=len(got), sig=sig(got))
-            n_t = self.plan["ex"][k][2] if k < len(self.plan["ex"]) else 1
-            k += 1
-            self.log("TCall", id=k, n=n_t)
-            data = payload("T", k, n_t)
+        sessions = self._sessions()
+        reply = [ex[2] for (exchanges, _, _) in sessions for ex in exchanges]
+        k = 0
+        for s in range(len(sessions)):
+            if s > 0 and self.i_over:
+                break
+            self.tmius.append(LR[self.cfg.get("lri", 3)] - 3 - bool(self.cfg.get("did")))
+            if tgt.activate(timeout=10.0, lrt=self.cfg.get("lrt", 3), rwt=self.cfg.get("wt", 8)) is None:
+                if not self.recording and len(sessions) == 1:
+                    raise RuntimeError("target activation failed")
+                # no DEP_REQ got through in this session: the device never reported an activation
+                self.log("TEnd", kind="NotActivated")
+                continue
+            self.tmius[-1] = tgt.miu
+            data = None
+            while True:
+                try:
+                    got = tgt.exchange(data, BIG)
+                except BaseException as e:            # noqa
+                    self.log("TEnd", kind=err_kind(e))
+                    break
+                if got is None:
+                    self.log("TEnd", kind="none")
+                    break
+                got = bytes(got)
+                self.log("TRet", n=len(got), sig=sig(got))
+                n_t = reply[k] if k < len(reply) else 1
+                k += 1
+                self.log("TCall", id=k, n=n_t)
+                data = payload("T", k, n_t)
+        return "ok"
 
     def run(self):
         self.air = air = Air()
@@ -239,6 +277,8 @@ class Conversation(object):
             air.devices["T"].listen_tech = ("212F", "424F")
         self.ini, self.tgt = nfc.dep.Initiator(clf_i), nfc.dep.Target(clf_t)
         self.recording = False
+        self.i_over = False
+        self.tmius, self.consts = [], []
         air.on_frame = self.on_frame
         old_os = nfc.dep.os
         nfc.dep.os = _SeededOs(zlib.crc32(self.cid.encode()) & 0xFFFF)
@@ -251,7 +291,10 @@ class Conversation(object):
         for r in res:
             if r[0] == "exc":
                 raise r[1]
-        self.const["miuT"] = self.tmiu
+        self.const["miuT"] = self.tmius[0]
+        for n, c in enumerate(self.consts):
+            c["miuT"] = self.tmius[n + 1] if n + 1 < len(self.tmius) else self.tmius[-1]
+            c.pop("brty", None)
         self._finalize("End")
         self.frames = len(air.log)
         return self
@@ -308,7 +351,7 @@ def systematic_specs(tier):
     all single faults over the first L1 frames, all double faults over the first L2, (thorough) triple over L3"""
     out = []
     quick = tier == "quick"
-    l1, l2, l3 = (20, 9, 0) if quick else (30, 16, 9)
+    l1, l2, l3 = (20, 8, 0) if quick else (30, 16, 9)
     for ci, cfg in enumerate(CONFIGS):
         mi, mt = miu_of(cfg)
         plans = [dict(ex=[(2 * mi + 1, 5, 2 * mt), (mi, 3, mt + 1), (1, 5, 1)], release="RLS"),
@@ -348,11 +391,30 @@ def boundary_specs(tier):
     return out
 
 
+def reactivation_specs(tier):
+    """the same Initiator and Target objects are activated a second time after a first session of k = 0..5 exchanges
+    (PNI left at every value) that ended by RLS, DSL or loss of the link; then a chained conversation, fault free
+    and with every single fault on its first frames"""
+    out = []
+    quick = tier == "quick"
+    for ci in (0, 6) if quick else range(len(CONFIGS)):
+        cfg = CONFIGS[ci]
+        mi, mt = miu_of(cfg)
+        for end in ("RLS", "DSL", "loss"):
+            for k in range(6):
+                plan = dict(s1=dict(k=k, end=end), ex=[(2 * mi + 1, 5, mt + 1), (1, 5, 2 * mt)], release="RLS")
+                for si, sc in enumerate(scripts(4 if quick else 8, 1)):
+                    if quick and si and (k + si) % 3:
+                        continue
+                    out.append(dict(id="a%d.%s.%d.%d" % (ci, end, k, si), cfg=cfg, plan=plan, fates=sc))
+    return out
+
+
 def random_specs(tier, seed):
     """(b) long random conversations, fault rate 0..30 %"""
     rnd = random.Random(seed * 7919 + 17)
     quick = tier == "quick"
-    n = 60 if quick else 1500
+    n = 48 if quick else 1500
     out = []
     for j in range(n):
         cfg = dict(rnd.choice(CONFIGS))
@@ -403,7 +465,10 @@ def classify(tr, verdict):
         names = list(why[1])
         keys = []
         for n in names:
-            if n == "MiuOk":
+            if n == "FirstPni":
+                d = why[2] if len(why) > 2 else {}
+                keys.append(K_TPNI if d.get("last") == "dup" else K_IPNI)
+            elif n == "MiuOk":
                 d = why[2] if len(why) > 2 else {}
                 who = [w for w, a, b in (("initiator", "miuI", "expI"), ("target", "miuT", "expT")) if d.get(a) != d.get(b)]
                 c = tr["const"]
@@ -439,6 +504,8 @@ def classify(tr, verdict):
         return ["OnlyCommErr:Initiator.exchange-raised-%s" % e["kind"]]
     if kind == "guard" and act == "TEnd" and str(e.get("kind", "")).startswith("Other"):
         return ["OnlyCommErr:Target.exchange-raised-%s" % e["kind"]]
+    if act == "Activate" and kind == "guard":
+        return [K_IPNI if e.get("ipni") else "conformance:guard@Activate"]
     what = e.get("t", "") if act == "Frame" else e.get("kind", "")
     return ["conformance:%s@%s:%s" % (kind, act, what)]
 
@@ -476,7 +543,10 @@ def judge(ck, traces, specs, verdicts):
     for tr in traces:
         nev += len(tr["ev"])
         nframes += sum(1 for e in tr["ev"] if e["a"] == "Frame")
-        vs = [verdicts[tr["id"]]] + [verdicts[tr["id"] + "#" + n] for n in MC_INVS if tr["id"] + "#" + n in verdicts]
+        flagged = [n for n in MC_INVS if tr["id"] + "#" + n in verdicts]
+        if "FirstPni" in flagged and "OneFaultOk" in flagged:
+            flagged.remove("OneFaultOk")      # the exchange fails because the session did not start afresh
+        vs = [verdicts[tr["id"]]] + [verdicts[tr["id"] + "#" + n] for n in flagged]
         if vs[0][0] == "ACCEPT":
             acc += 1
         for v in vs:
@@ -491,8 +561,8 @@ def judge(ck, traces, specs, verdicts):
 
 
 # ------------------------------------------------------------------ the check
-MC_INVS = ["MiuOk", "ExactlyOnce", "Intact", "OnlyCommErr", "FrameFits", "OneFaultOk", "TargetOk", "PniInSync"]
-WITNESSES = ["W_Retx", "W_Atn", "W_Nak", "W_NakAck", "W_ChainBoth", "W_Wrap", "W_ErrTimeout", "W_ErrProto",
+MC_INVS = ["FirstPni", "MiuOk", "ExactlyOnce", "Intact", "OnlyCommErr", "FrameFits", "OneFaultOk", "TargetOk", "PniInSync"]
+WITNESSES = ["W_Again", "W_Retx", "W_Atn", "W_Nak", "W_NakAck", "W_ChainBoth", "W_Wrap", "W_ErrTimeout", "W_ErrProto",
              "W_Release", "W_Absorbed"]
 
 
@@ -507,6 +577,12 @@ def run(tier, seed):
                      "TLC found a violation in the design-level model (variants ack, atn, miu on): %s"
                      % str(r.error_trace)[:2000])
     ck.cover(states=r.distinct, transitions=r.generated, mc_depth=r.depth)
+    if quick:       # re-activation of the same objects (thorough: part of the main configuration, MaxSess = 2)
+        rs = tlc.run("MC_NfcDep.tla", "MC_NfcDep_sess.cfg", PID + "_sess", workers=8, timeout=300)
+        if not rs.ok:
+            ck.violation("spec:NfcDep(sessions):" + ",".join(rs.violated or ["deadlock"]),
+                         "TLC found a violation in the re-activation model: %s" % str(rs.error_trace)[:2000])
+        ck.cover(states=rs.distinct, transitions=rs.generated)
     hit, _ = tlc.witnesses("MC_NfcDep.tla", "MC_NfcDep_reach.cfg", PID, WITNESSES)
     missing = set(WITNESSES) - hit
     if missing:
@@ -519,7 +595,7 @@ def run(tier, seed):
     ck.cover(asis_model_violates=sorted(a.violated), did0_model_violates=sorted(d0.violated))
 
     # 2. conformance: real conversations -> Trace_NfcDep
-    specs = boundary_specs(tier) + systematic_specs(tier) + random_specs(tier, seed)
+    specs = boundary_specs(tier) + reactivation_specs(tier) + systematic_specs(tier) + random_specs(tier, seed)
     recs = record_all(specs)
     traces = [t for t, _ in recs]
     self_t = mutate_for_selftest(next(t for t in traces if any(e["a"] == "TRet" for e in t["ev"]) and len(t["ev"]) > 12))
@@ -538,6 +614,7 @@ def run(tier, seed):
              exchanges_recorded=sum(1 for t in traces for e in t["ev"] if e["a"] == "ICall"),
              bit_rates=brty, configurations=len(CONFIGS),
              boundary_conversations=sum(1 for s in specs if s["id"][0] == "b"),
+             reactivation_conversations=sum(1 for s in specs if s["id"][0] == "a"),
              binding_selftest="wrong PNI, dropped frame and altered payload signature all rejected")
     ck.sample(dict(trace=traces[0]["id"], const=traces[0]["const"], first_events=traces[0]["ev"][:5]))
     ck.sample(dict(mc="MC_NfcDep", distinct=r.distinct, depth=r.depth, asis_violations=sorted(a.violated)))
